@@ -37,13 +37,16 @@ META = {'design_ref': 'DESIGN.md section 7 / C09',
  'level_note': 'Trusted: Coq kernel; the tie (facade engine.rs, harness, OCaml driver incl. the generator); the reference codec used by the simulated broker '
                '(SpecDecodeC2S / SpecEncodeS2C); abstract component hypotheses of the engine theorems (no-panic of codec / validators / resolvers) are '
                'discharged in the codec / validation / alias developments or stated as premises.',
- 'level_text': 'Coq theorems: C09_flow_init / C09_flow_step / C09_flow_count (an inductive flow invariant of the engine model whose count clause includes the '
-               'current operation) and C09_receive_max_given (over ALL no-panic runs: while Connected, the number of in-flight QoS 1/2 publishes never exceeds '
-               'the negotiated Receive Maximum) — the latter under the explicit premise pid_facts (an incomplete operation holding a packet id is the one '
-               'recorded for it in the allocation table; a QoS>0 publish waiting in the high-priority queue is already in the pending table), which is a '
-               'conjunct of the WF invariant being proved separately (EngineProofs/WF*.v); until that development closes the premise is checked at run time by '
-               'the lock-step snapshot comparison and the monitors. C09_ss_count_exact (unconditional, over all runs: while Connected with the one-at-a-time '
-               'policy the slow-start counter equals the number of marked live operations), C09_slow_start_gate and C09_receive_max_gate (single step: the '
-               'dequeue rules). Wire/snapshot monitors mon_c09_recvmax and mon_c09_slowstart judge every history (they found D21, fixed by /repo c0808c3).',
+ 'level_text': 'Coq theorems: C09_receive_max (UNCONDITIONAL, over ALL event histories a driver can produce — service clock below 2^62 ms, buffer of '
+               'at least 4 bytes, ping timeout below 2^62 ms; no assumption on event order, server bytes or submitted packets: while Connected, the number of '
+               'in-flight QoS 1/2 publishes never exceeds the negotiated Receive Maximum), stated for any codec / validator / resolver components satisfying '
+               'comps_ok, and C09_instance_receive_max, the same for the concrete engine of Engine/Instance.v that the correspondence check executes (component '
+               'hypotheses discharged in EngineProofs/WFInstance.v). They are obtained in EngineProofs/FlowWF.v from C09_receive_max_given (the bound over all '
+               'no-panic runs given the packet-id facts pid_facts) by discharging pid_facts with the engine well-formedness invariant (WF_pid_facts: conjuncts '
+               'w_bound, w_hq, w_ppub of EngineProofs/WF*.v) and the no-panic premise with C11_no_panic. C09_flow_init / C09_flow_step / C09_flow_count (the '
+               'inductive flow invariant whose count clause includes the current operation), C09_ss_count_exact (unconditional, over all runs: while Connected '
+               'with the one-at-a-time policy the slow-start counter equals the number of marked live operations), C09_slow_start_gate and C09_receive_max_gate '
+               '(single step: the dequeue rules). Wire/snapshot monitors mon_c09_recvmax and mon_c09_slowstart judge every history on the implementation (they '
+               'found D21, fixed by /repo c0808c3).',
  'technique': 'machine-checked proof in Coq over the engine model + lock-step correspondence of the extracted model with the implementation + extracted '
               'monitors on the implementation trace'}
